@@ -149,6 +149,19 @@ func (x *ctx) single(rng *rand.Rand) {
 		}, w1, d)
 	}
 	x.try("SetExpanded", func() *curve.EdwardsPoint { return x.h.E().SetExpanded(e.Exp) }, e.Ref, d)
+	// points handed out by a table / an expansion outlive it: the source object is dropped and collected (finalizers
+	// included) before the point is used
+	if rng.IntN(8) == 0 {
+		var bp, xpnt *curve.EdwardsPoint
+		func() {
+			bp = curve.NewEdwardsBasepointTable(lp).Basepoint()
+			xpnt = curve.NewExpandedEdwardsPoint(lp).Point()
+		}()
+		mon.GCNow()
+		x.r.Hist("gc/after-dropping-table-and-expansion")
+		x.try("Basepoint() of a collected table, then Mul", func() *curve.EdwardsPoint { return x.h.E().Mul(bp, sc) }, w1, d)
+		x.try("Point() of a collected expansion, then Mul", func() *curve.EdwardsPoint { return x.h.E().Mul(xpnt, sc) }, w1, d)
+	}
 	// objects built FROM a point stand for the value the point had at construction: the caller goes on using (and
 	// changing) its point object before the table or expansion is used for the first time
 	{
